@@ -92,13 +92,13 @@ func (s *Segment) Index(k any) (v any, ok bool) {
 func (s *Segment) Concat(v any) (any, error) {
 	switch rhs := v.(type) {
 	case string:
-		return Text{s, &Segment{Text: rhs}}, nil
+		return Concat(TextFromSegment(s), T(rhs)), nil
 	case *Segment:
-		return Text{s, rhs}, nil
+		return Concat(TextFromSegment(s), TextFromSegment(rhs)), nil
 	case Text:
-		return Text(append([]*Segment{s}, rhs...)), nil
+		return Concat(TextFromSegment(s), rhs), nil
 	case int, *big.Int, *big.Rat, float64:
-		return Text{s, &Segment{Text: vals.ToString(rhs)}}, nil
+		return Concat(TextFromSegment(s), T(vals.ToString(rhs))), nil
 	}
 	return nil, vals.ErrConcatNotImplemented
 }
@@ -107,9 +107,9 @@ func (s *Segment) Concat(v any) (any, error) {
 func (s *Segment) RConcat(v any) (any, error) {
 	switch lhs := v.(type) {
 	case string:
-		return Text{&Segment{Text: lhs}, s}, nil
+		return Concat(T(lhs), TextFromSegment(s)), nil
 	case int, *big.Int, *big.Rat, float64:
-		return Text{&Segment{Text: vals.ToString(lhs)}, s}, nil
+		return Concat(T(vals.ToString(lhs)), TextFromSegment(s)), nil
 	}
 	return nil, vals.ErrConcatNotImplemented
 }
